@@ -48,3 +48,15 @@ Definition run_weak (noisy : bool) (p : wparams) : wparams * nat (* trajectories
 
 Definition strong_history (h : list bool) (p : sparams) : sparams := fold_left (fun q noisy => fst (run_strong noisy q)) h p.
 Definition weak_history (h : list bool) (p : wparams) : wparams := fold_left (fun q noisy => fst (fst (run_weak noisy q))) h p.
+
+(* ---- refused runs: a noisy circuit run that asks for the final state (get_state) is rejected by an assertion.  A rejected call is
+   not a run: it must leave the parameter object as it was, so that the corrected call behaves like a call on a fresh object ---- *)
+Definition attempt_weak (noisy get_state : bool) (p : wparams) : wparams * option (nat * nat) :=
+  if noisy && get_state then (p, None)
+  else let r := run_weak noisy p in (fst (fst r), Some (snd (fst r), snd r)).
+Definition attempt_strong (noisy get_state : bool) (p : sparams) : sparams * option nat :=
+  if noisy && get_state then (p, None) else let r := run_strong noisy p in (fst r, Some (snd r)).
+Definition weak_attempts (h : list (bool * bool)) (p : wparams) : wparams :=
+  fold_left (fun q ng => fst (attempt_weak (fst ng) (snd ng) q)) h p.
+Definition strong_attempts (h : list (bool * bool)) (p : sparams) : sparams :=
+  fold_left (fun q ng => fst (attempt_strong (fst ng) (snd ng) q)) h p.
